@@ -174,6 +174,22 @@ func c06variants(r *h.Rand, g orb.Geometry) []orb.Geometry {
 			out = append(out, cp)
 		}
 	}
+	// one coordinate of one vertex moved to the neighbouring float (the smallest possible difference)
+	{
+		cp := refmodel.Copy(g)
+		var vs []orb.Point
+		refmodel.Walk(cp, func(p orb.Point) { vs = append(vs, p) }, nil)
+		if ss := setters(&cp); len(ss) > 0 && len(ss) == len(vs) {
+			i := r.Intn(len(ss))
+			p := vs[i]
+			k := r.Intn(2)
+			if p[k] == p[k] && !math.IsInf(p[k], 0) {
+				p[k] = math.Nextafter(p[k], []float64{math.Inf(1), math.Inf(-1)}[r.Intn(2)])
+				ss[i](p)
+				out = append(out, cp)
+			}
+		}
+	}
 	// lengths: prefix view sharing memory, and a longer copy
 	switch x := g.(type) {
 	case orb.MultiPoint:
